@@ -819,6 +819,19 @@ def check(ctx):
     _check_c02(ctx)
     import core
     core.script_route(ctx)
+    # every character the tokeniser skips as whitespace (all of str.isspace: NBSP, thin spaces, U+2028, U+3000, \x1c-\x1f …) between
+    # the tokens of a program: the same value as with blanks
+    import sys as _sys
+    allws = [chr(c) for c in range(_sys.maxunicode + 1) if chr(c).isspace()]
+    for toks in (["1", "+", "2", "*", "3"], ["5", "km", "to", "m"], ["2", "^", "3", "^", "2"], ["-", "3", "!", "+", "1"], ["{", "x", ":", "x", "in", "1", "..", "3", "}"]):
+        want = ctx.real.execute(" ".join(toks))
+        for w in allws:
+            text = w.join(toks)
+            got = ctx.real.execute(text)
+            ctx.count("ws-any:%s U+%04X" % (" ".join(toks), ord(w)), bucket="every whitespace character between tokens")
+            if (got["status"], got["out"], got["escaped"]) != (want["status"], want["out"], want["escaped"]):
+                ctx.violation("ws-between-tokens:%s with U+%04X" % (" ".join(toks), ord(w)), text, want["out"].strip(),
+                              got["out"].strip() or "status %s %s %s" % (got["status"], got["escaped"] or "", got["err"].strip()[:80]), "execute(%r)" % text)
     # the keyword `in` directly against a number literal, a closing bracket or a postfix `!` (no letter follows it): the same
     # program as with blanks around it — whitespace between two tokens never changes the meaning
     R = ctx.real
